@@ -119,17 +119,13 @@ Lemma expand_neutral line name ops st body :
   Forall (fun ln => neutral_line ln = true) (substitute ops body) ->
   macro_expand fuel inc macroses line name ops st =
     do x <- body_items ops body st;
-    Ok (fst x, match snd x with
-               | [] => []
-               | its => [{| items := its; seg_t := SCode; address := address (last_seg st) |}]
-               end).
+    Ok (fst x, [{| items := snd x; seg_t := SCode; address := address (last_seg st) |}]).
 Proof.
   intros Hl Hf. unfold macro_expand, body_items. rewrite Hl. cbv zeta.
   destruct (parse_iter _ _ _ _ _ _) as [r| | |] eqn:Ep; try reflexivity. cbn [bind fst snd].
   assert (Hs : one_seg (address (last_seg st)) r).
   { eapply parse_iter_one_seg; [exact Hf | exact Ep |]. exists []. reflexivity. }
-  destruct Hs as (its & ->). unfold non_empty. cbn [filter seg_is_empty items].
-  destruct its; reflexivity.
+  destruct Hs as (its & ->). reflexivity.
 Qed.
 
 Lemma pass0_items_cons depth cp it rest st :
@@ -193,12 +189,10 @@ Proof.
   destruct (body_items ops body st) as [[st0 its]| | |] eqn:Eb; try reflexivity. cbn [bind fst snd].
   assert (Hsegs : segs st0 = segs st).
   { unfold body_items in Eb. apply bind_ok in Eb. destruct Eb as (r & _ & Eb). injection Eb as <- _. reflexivity. }
-  destruct its as [|i its].
-  - rewrite pass0_items_nil. reflexivity.
-  - cbv zeta. cbn [address seg_t items fold_left].
-    assert (Hlast : last_seg st0 = last_seg st) by (unfold last_seg; rewrite Hsegs; reflexivity).
-    rewrite Hlast, Hc, N.eqb_refl. cbn [negb orb segt_eqb].
-    destruct (pass0_items fuel inc macroses d (i :: its) st0); reflexivity.
+  cbv zeta. cbn [address seg_t items fold_left].
+  assert (Hlast : last_seg st0 = last_seg st) by (unfold last_seg; rewrite Hsegs; reflexivity).
+  rewrite Hlast, Hc, N.eqb_refl. cbn [negb orb segt_eqb].
+  destruct (pass0_items fuel inc macroses d its st0); reflexivity.
 Qed.
 
 (** deeper is never different: what succeeds with [d] levels left succeeds identically with more *)
